@@ -102,6 +102,10 @@ func runHistory(req request) (resp response) {
 		time.Sleep(150 * time.Microsecond)
 		return c.Next(), nil
 	}, 0, false).SolemnlyDeclareCompliance(allFlags)
+	r.SetEnvGoFunc(env, "gogc", func(t *rt.Thread, c *rt.GoCont) (rt.Cont, error) {
+		goGC(1) // Go's collector only: the runtime finds what is pending between two continuations
+		return c.Next(), nil
+	}, 0, false).SolemnlyDeclareCompliance(allFlags)
 	r.SetEnvGoFunc(env, "newres", func(t *rt.Thread, c *rt.GoCont) (rt.Cont, error) {
 		if err := c.CheckNArgs(2); err != nil {
 			return nil, err
@@ -184,6 +188,9 @@ log("bulk-created", id)
 `, req.Case.BulkRounds, req.Case.Bulk))
 		goGC(3)
 		runChunk("bulk-tail", "local x = 0 for i = 1, 30000 do x = x + i % 3 end")
+	}
+	if req.Case.Mid != nil {
+		runChunk("mid", req.Case.Mid.Program())
 	}
 	for i, s := range req.Case.Stmts {
 		lg.add("step " + strconv.Itoa(i+1))
